@@ -22,6 +22,7 @@ func init() {
 		Rule{ID: "R04b", Doc: "receive buffers do not escape the handler turn", Floor: 5, Run: r04b},
 		Rule{ID: "R07d", Doc: "cache returns private data", Floor: 8, Run: r07d},
 		Rule{ID: "R20a", Doc: "no use after release", Floor: 60, Run: r20a},
+		Rule{ID: "R20m", Doc: "per-query goroutines do not share a query variable across loop iterations (shared with C20)", Floor: 5, Run: r20m},
 		Rule{ID: "R20b", Doc: "nothing released under a goroutine that holds it", Floor: 20, Run: r20b},
 		Rule{ID: "R20g", Doc: "pool-put hygiene", Floor: 12, Run: r20g},
 		Rule{ID: "R05c", Doc: "delivery by the reply's own ID", Floor: 5, Run: r05c},
